@@ -1,14 +1,14 @@
 #!/bin/bash
 # tools/confirm_seeded.sh Cxx  : independently confirm the change written in /tmp/mut-Cxx/OUT in a fresh scratch worktree,
-# then store it as /verif/seeded/Cxx-1/{patch.diff,demo.py,notes.md,meta.json}
+# (second argument n: wave number, source /tmp/mut<n>-Cxx) then store it as /verif/seeded/Cxx-<n>/{patch.diff,demo.py,notes.md,meta.json}
 set -u
-pid="$1"; src=/tmp/mut-$pid/OUT; w=/tmp/confirm-$pid
+pid="$1"; n="${2:-1}"; if [ "$n" = "1" ]; then mut=/tmp/mut-$pid; else mut=/tmp/mut$n-$pid; fi; src=$mut/OUT; w=/tmp/confirm-$pid-$n
 [ -f $src/patch.diff ] || { echo "no patch for $pid"; exit 2; }
 git -C /repo worktree remove --force $w 2>/dev/null
 git -C /repo worktree add -q --detach $w HEAD || exit 2
 export PYTHONPATH=$w/src JAX_PLATFORMS=cpu
 mkdir -p $w/OUT; cp $src/demo.py $w/OUT/demo.py
-sed -i "s#/tmp/mut-$pid#$w#g" $w/OUT/demo.py
+sed -i "s#$mut#$w#g" $w/OUT/demo.py
 ( cd $w && timeout 600 /venv/bin/python OUT/demo.py > $w/OUT/demo_orig.log 2>&1 ); rc_orig=$?
 ( cd $w && git apply $src/patch.diff ) || { echo "patch does not apply"; git -C /repo worktree remove --force $w; exit 2; }
 files=$(git -C $w diff --name-only | tr '\n' ' ')
@@ -22,7 +22,7 @@ case "$files" in *utils.py*) tests="$tests tests/integration/test_serialization.
 [ -z "$tests" ] && tests="tests/algorithm/test_ppo.py"
 ( cd $w && timeout 2400 /venv/bin/python -m pytest -q -p no:cacheprovider -p no:cov -o addopts="" --timeout=900 $tests > $w/OUT/tests.log 2>&1 ); rc_tests=$?
 summary=$(grep -E "passed|failed|error" $w/OUT/tests.log | tail -1)
-d=/verif/seeded/$pid-1; mkdir -p $d
+d=/verif/seeded/$pid-$n; mkdir -p $d
 cp $src/patch.diff $d/patch.diff; cp $src/demo.py $d/demo.py; cp $src/notes.md $d/notes.md 2>/dev/null
 python3 - <<PY
 import json
